@@ -210,12 +210,10 @@ func (k *kase) searchOracle(rep *hx.Report) {
 				}
 			}
 		}
-		class := "error-differs:same-position-class"
-		switch {
-		case k.itemOf != nil && len(items) == len(dr) && allFuncs(items):
-			class = "error-differs:first-error-met(one error per function, in different functions)"
-		case len(lines) == len(dr):
-			class = "error-differs:errors-at-different-lines"
+		// (lines is used only to tell the two input classes apart)
+		class := "error-differs:several-conflicts(some in one item or outside functions)"
+		if k.itemOf != nil && len(items) == len(dr) && len(lines) == len(dr) && allFuncs(items) {
+			class = "error-differs:one-error-per-function(in different functions)"
 		}
 		rep.Fail(hx.Failure{Class: class, Oracle: "error-text-equal-across-parses",
 			Detail: k.detail(map[string]any{"expected": "one error text", "got": counts})})
@@ -557,6 +555,60 @@ func (k *kase) correspond(rep *hx.Report, m modelAns) {
 	rep.Count(fmt.Sprintf("outcomes:impl=%d,model=%d", len(impl), len(m.reach)))
 }
 
+var callNativeRe = regexp.MustCompile(`CallNative (\S+) \d+`)
+
+// every name the implementation's disassembly shows after CallNative must be a name the
+// model allows for some native index (model: Model/Determinism.v name_shown over every
+// order of the function map)
+func (k *kase) correspondNames(rep *hx.Report, ans string) {
+	rep.CorrEvals++
+	allowed := map[string]bool{}
+	multi := false
+	for _, f := range strings.Fields(ans) {
+		kv := strings.SplitN(f, "=", 2)
+		if len(kv) != 2 {
+			rep.HarnessError("bad natnames answer %q", ans)
+			return
+		}
+		ns := strings.Split(kv[1], ",")
+		if len(ns) > 1 {
+			multi = true
+		}
+		for _, n := range ns {
+			if n != "none" {
+				allowed[string(hx.UnHex(n))] = true
+			}
+		}
+	}
+	shown := map[string]bool{}
+	var dis []string
+	for _, p := range k.parses {
+		if p.Verdict != "ok" {
+			continue
+		}
+		d := sections(p.Dump)["DISASM"]
+		dis = append(dis, d)
+		for _, m := range callNativeRe.FindAllStringSubmatch(d, -1) {
+			shown[m[1]] = true
+		}
+	}
+	for n := range shown {
+		if !allowed[n] {
+			rep.Mismatch(hx.Mismatch{Class: "disassembly-name-not-allowed-by-model", Input: short(k.family + "\n" + k.src), Impl: n, Model: ans})
+			return
+		}
+	}
+	if !multi && len(distinctStrings(dis)) > 1 {
+		rep.Mismatch(hx.Mismatch{Class: "disassembly-differs-but-model-deterministic", Input: short(k.family + "\n" + k.src), Impl: "several disassemblies", Model: ans})
+		return
+	}
+	if multi {
+		rep.Count("natnames:model-allows-several")
+	} else {
+		rep.Count("natnames:model-deterministic")
+	}
+}
+
 // ---- shared execution ----
 
 func sharedOracle(rep *hx.Report, dir string, goroutines, rounds int) {
@@ -730,6 +782,22 @@ func main() {
 				seeds = 0
 			}
 			reqs = append(reqs, fmt.Sprintf("fronts %d %d %s %s", seeds, len(fs), strings.Join(fs, " "), k.wire))
+		}
+	}
+	// the names the disassembler may show for native calls (programs with Go functions)
+	var natCases []*kase
+	var natReqs []string
+	for _, k := range ks {
+		if len(k.natives) > 0 && k.parses[0].Verdict == "ok" {
+			natCases = append(natCases, k)
+			natReqs = append(natReqs, "natnames "+k.wire)
+		}
+	}
+	if natAns, err := hx.ModelEval(o.ModelRun, natReqs); err != nil {
+		rep.HarnessError("modelrun natnames: %v", err)
+	} else {
+		for i, k := range natCases {
+			k.correspondNames(rep, natAns[i])
 		}
 	}
 	answers, err := hx.ModelEval(o.ModelRun, reqs)
